@@ -82,6 +82,20 @@ type Codec struct {
 	// LightHeaders are further valid prefixes (legacy versions) that always get the quick-tier
 	// short-string menu (all strings <=1, 2-byte strings over the boundary menu).
 	LightHeaders [][]byte
+
+	// ---- section "sequences" (kit_sequences.go)
+	// FailEncode are values the encoder is expected to reject (every failing path of the encoder,
+	// in particular the ones that fail after part of the output was produced); they are used as
+	// intervening calls. A value the encoder accepts is used as an ordinary call.
+	FailEncode []Value
+	// SeqCalls are further real calls of the package used as intervening calls.
+	SeqCalls []SeqCall
+	// AliasByContract is non-empty (the reason) when the decoder is documented / visibly used as
+	// zero-copy: its values may be views of the caller's buffer; detachment is then counted,
+	// not demanded.
+	AliasByContract string
+	// SeqSkip is non-empty (the reason) when the codec is left out of the sequences section.
+	SeqSkip string
 }
 
 // Bounds are the tier-dependent enumeration bounds.
@@ -257,6 +271,8 @@ func (k *Runner) Run(codecs []*Codec) {
 		k.replay(codecs, rf)
 		return
 	}
+	// fresh-state answers of the sequences section: before anything else ran in this process
+	seqMenu := k.prepareSeq(codecs)
 	names := map[string]bool{}
 	totalSeeds := 0
 	for _, c := range codecs {
@@ -275,6 +291,7 @@ func (k *Runner) Run(codecs []*Codec) {
 		k.flush()
 	}
 	k.flush()
+	k.runSeq(seqMenu)
 	bounds := map[string]any{"codecs": len(codecs), "seed_encodings": totalSeeds, "alloc_ceiling": "1MiB+64*len(input)"}
 	k.rt.Done(true, bounds, "every menu value: Decode(Encode(v)) must equal v (nil and empty slices are equal, times by instant, errors by text)")
 	repl := "boundary replacement bytes {00,01,7f,80,ff,b^01,b^80,b^ff,b+1,b-1}"
@@ -691,6 +708,11 @@ func (k *Runner) replay(codecs []*Codec, rf *ev.ReplayFile) {
 	var p replay
 	if err := json.Unmarshal(rf.Replay, &p); err != nil {
 		k.R.HarnessError("replay: bad payload: %v", err)
+		return
+	}
+	if p.Kind == "sequences" {
+		k.replaySeq(codecs, p)
+		k.rt.Done(true, nil, "replay")
 		return
 	}
 	for _, c := range codecs {
